@@ -263,6 +263,33 @@ Theorem C15_glyph_deltas_invert : forall xs prev, undeltas prev (deltas prev xs)
 Proof. exact undeltas_deltas. Qed.
 Print Assumptions C15_glyph_deltas_invert.
 
+(* ===== the property as a whole: PARTIAL.  The conjunction below is what is proved of "read is the
+   inverse of write for every table the library can write": straight-line layouts (head, hhea, maxp
+   subtable, hmtx/name/directory records, bounding box, post header, OS/2 pieces), maxp, OS/2, hmtx,
+   loca (owned writer), the owned name table, simple glyphs, CFF integer/offset operands and INDEX.
+   Missing (see docs/C15.md): cmap subtables, cvt, composite glyphs, CFF DICT/charset/encoding/
+   FDSelect/real operands, CFF2, item variation stores, the borrowed name writer, and parse-write-parse
+   for arbitrary parsable bytes other than OS/2. *)
+Theorem C15_read_inverts_write_partial :
+  ltac:(let t := type of layout_roundtrip in exact t) /\
+  ltac:(let t := type of maxp_roundtrip in exact t) /\
+  ltac:(let t := type of os2_roundtrip in exact t) /\
+  ltac:(let t := type of hmtx_roundtrip in exact t) /\
+  ltac:(let t := type of loca_short_roundtrip in exact t) /\
+  ltac:(let t := type of loca_long_roundtrip in exact t) /\
+  ltac:(let t := type of name_owned_roundtrip in exact t) /\
+  ltac:(let t := type of simple_glyph_roundtrip in exact t) /\
+  ltac:(let t := type of operand_int_roundtrip in exact t) /\
+  ltac:(let t := type of operand_offset_roundtrip in exact t) /\
+  ltac:(let t := type of index_roundtrip in exact t).
+Proof.
+  exact (conj layout_roundtrip (conj maxp_roundtrip (conj os2_roundtrip (conj hmtx_roundtrip
+        (conj loca_short_roundtrip (conj loca_long_roundtrip (conj name_owned_roundtrip
+        (conj simple_glyph_roundtrip (conj operand_int_roundtrip (conj operand_offset_roundtrip
+        index_roundtrip)))))))))).
+Qed.
+Print Assumptions C15_read_inverts_write_partial.
+
 (* ===== non-vacuity *)
 Definition head_example : list Z :=
   [1; 0; 65536; 3735928559; 1594834165; 11; 2048; 3600000000; -1; -100; -200; 1000; 900; 3; 8; 2; 1; 0].
